@@ -4,6 +4,7 @@ import (
 	"encoding/binary"
 	"fmt"
 	"regexp"
+	"sort"
 	"strings"
 
 	"verif/pgwire"
@@ -47,6 +48,32 @@ func genConcurrent(r *Rand, n int, o histOpts, limit int) *Case {
 		oo := o
 		oo.prefix = fmt.Sprintf("c%d", i)
 		genHistory(r, c, oo)
+	}
+	if r.Chance(1, 2) {
+		// user code that runs while a row is being encoded (a Valuer): a schedule
+		// point between the start and the end of a DataRow, so that another
+		// connection can run while this one's message is half built
+		var keys []string
+		for k := range c.Programs {
+			keys = append(keys, k)
+		}
+		sort.Strings(keys)
+		for _, k := range keys {
+			for _, sp := range c.Programs[k].Stmts {
+				for oi := range sp.Ops {
+					op := &sp.Ops[oi]
+					if op.K != "row" || len(op.Row) != len(sp.Cols) || !r.Chance(1, 3) {
+						continue
+					}
+					for ci, v := range op.Row {
+						if v.G == "string" && (sp.Cols[ci].OID == pgwire.OIDText || sp.Cols[ci].OID == pgwire.OIDVarchar) {
+							op.YieldIn = ci + 1
+							break
+						}
+					}
+				}
+			}
+		}
 	}
 	if r.Chance(1, 3) {
 		// a twin: a second client sends exactly what one of the sessions sends, so
@@ -451,7 +478,7 @@ func genC15LargeIdle(r *Rand) *Case {
 func init() {
 	register(&Prop{
 		ID: "C15", Level: "exploration", QuickS: 30, ThoroughS: 480, Race: true,
-		Rule: "seeded sets of 2-5 sessions drawn from the generators of C05-C09/C13 (simple and extended queries, COPY, failing handlers, Close) that deliberately use the same statement/portal names, different users and different Go row types for the same OIDs; each session is first served alone on a fresh server (E1), then all together on one server under 4 (quick) / 8 (thorough) seeded schedules (uniform, PCT depth 1-3; schedule points at every transport operation, callback entry, row write and spliced sync operation, so handler executions interleave at row granularity and one connection may be starved until the others are done); oracle (a): per connection the canonical transcript and callback trace equal the solo ones; oracle (b): the -race shard with the HB-transparent scheduler reports nothing (a report is attributed to the case and confirmed by replaying it alone in a fresh -race process); a third of the sets contain a twin (a second client sending exactly what one of the sessions sends: the same statements, and with them the same handler-owned column descriptions, are in use on two connections at once), in a fifth every peer's remote address prints the same text (unix-domain socket, in-memory listener); a quarter of the sets are preceded by a probe connection (EOF, junk, HTTP request or truncated startup packet); a tenth of the cases are 2-3 clients that upgrade to TLS at the same time on a fresh server and run a short session each (transcripts compared with the plaintext solo runs; the -race shard covers the upgrade path); variants: login-storm (5-8 wrong-password connections for one user name, then the right one), session-context-ends (one session's middleware-derived context is cancelled and the client goes on sending beside ordinary sessions), binary-copy-side-by-side (2-3 connections load rows with int4[] columns through the binary COPY row reader at the same time), large-messages-then-idle (8-11 sessions idle after a message of a little over 1 MiB, one more session sends the same and goes on); half of the cases run their first concurrent schedule before any solo run, so that lazily initialised process-wide state is first touched by several connections at once; non-trivial = at least two connections; distinct = distinct case content hashes; distinct_interleavings = distinct (task, point) decision sequences",
+		Rule: "seeded sets of 2-5 sessions drawn from the generators of C05-C09/C13 (simple and extended queries, COPY, failing handlers, Close) that deliberately use the same statement/portal names, different users and different Go row types for the same OIDs; each session is first served alone on a fresh server (E1), then all together on one server under 4 (quick) / 8 (thorough) seeded schedules (uniform, PCT depth 1-3; schedule points at every transport operation, callback entry, row write and spliced sync operation, so handler executions interleave at row granularity and one connection may be starved until the others are done); oracle (a): per connection the canonical transcript and callback trace equal the solo ones; oracle (b): the -race shard with the HB-transparent scheduler reports nothing (a report is attributed to the case and confirmed by replaying it alone in a fresh -race process); in half of the sets some row values are Valuers whose TextValue() is a schedule point (user code running between the start and the end of a DataRow); a third of the sets contain a twin (a second client sending exactly what one of the sessions sends: the same statements, and with them the same handler-owned column descriptions, are in use on two connections at once), in a fifth every peer's remote address prints the same text (unix-domain socket, in-memory listener); a quarter of the sets are preceded by a probe connection (EOF, junk, HTTP request or truncated startup packet); a tenth of the cases are 2-3 clients that upgrade to TLS at the same time on a fresh server and run a short session each (transcripts compared with the plaintext solo runs; the -race shard covers the upgrade path); variants: login-storm (5-8 wrong-password connections for one user name, then the right one), session-context-ends (one session's middleware-derived context is cancelled and the client goes on sending beside ordinary sessions), binary-copy-side-by-side (2-3 connections load rows with int4[] columns through the binary COPY row reader at the same time), large-messages-then-idle (8-11 sessions idle after a message of a little over 1 MiB, one more session sends the same and goes on); half of the cases run their first concurrent schedule before any solo run, so that lazily initialised process-wide state is first touched by several connections at once; non-trivial = at least two connections; distinct = distinct case content hashes; distinct_interleavings = distinct (task, point) decision sequences",
 		Components: []string{
 			"real: everything on the serving path (accept loop, per-connection goroutines, handshake, command loop, caches, type maps, writers, COPY readers, pgx codecs)",
 			"stub: listener/connections, handler programs; scheduler: harness/kernel.go serialises and chooses goroutines; race oracle: Go race detector of the -race worker, kernel synchronisation hidden via runtime.RaceDisable and //go:norace",
